@@ -332,6 +332,8 @@ fn lanczos_event(out: &mut Out, case: &str, sh: &Value, mat: &Mat, rep: u64, dea
 pub fn run(args: &Args) -> i32 {
     let seed = arg_u64(args, "seed", 1);
     let reps = arg_u64(args, "reps", 3);
+    // deadline of one call, seconds (normal times: < 5 s for the largest matrices)
+    let deadline = arg_u64(args, "deadline", 1800) as f64;
     let mut out = Out::create(arg_str(args, "out", "trace.ndjson"));
     let mut rng = rng_for(seed, "c14");
     // explicit small matrices from the TLA+ generator
@@ -339,7 +341,7 @@ pub fn run(args: &Args) -> i32 {
         for (i, m) in read_ndjson(p).iter().enumerate() {
             let mat = explicit(m);
             let info = json!({"gen": m["name"], "corank": m["corank"]});
-            gauss_event(&mut out, &format!("gen/{}/{}", i, m["name"].as_str().unwrap_or("?")), &info, &mat, 600.0);
+            gauss_event(&mut out, &format!("gen/{}/{}", i, m["name"].as_str().unwrap_or("?")), &info, &mat, deadline);
         }
     }
     // abstract shapes concretised here
@@ -347,10 +349,10 @@ pub fn run(args: &Args) -> i32 {
         for (i, sh) in read_ndjson(p).iter().enumerate() {
             let mat = build(&mut rng, sh);
             match sh["alg"].as_str().unwrap() {
-                "gauss" => gauss_event(&mut out, &format!("gauss/{}", i), sh, &mat, 3600.0),
+                "gauss" => gauss_event(&mut out, &format!("gauss/{}", i), sh, &mat, deadline),
                 "lanczos" => {
                     for rep in 0..reps {
-                        lanczos_event(&mut out, &format!("lanczos/{}", i), sh, &mat, rep, 3600.0);
+                        lanczos_event(&mut out, &format!("lanczos/{}", i), sh, &mat, rep, deadline);
                     }
                 }
                 a => panic!("unknown alg {}", a),
